@@ -96,6 +96,36 @@ pub struct Fiber {
   backtrace_ips: UniqueVector<*const u8, Header>,
 }
 
+#[cfg(feature = "verif")]
+impl Fiber {
+  /// Depth of the current frame and the room left above the stack top
+  pub fn verif_depth(&self) -> (isize, isize) {
+    unsafe {
+      let depth = self.stack_top.offset_from(self.frame().stack_start());
+      let used = self.stack_top.offset_from(self.stack.as_ptr());
+      (depth, self.stack.cap() as isize - used)
+    }
+  }
+
+  /// How many active handlers belong to the current frame
+  pub fn verif_frame_handlers(&self) -> usize {
+    let depth = self.frames.len();
+    self
+      .exception_handlers
+      .iter()
+      .filter(|handler| handler.call_frame_depth() == depth)
+      .count()
+  }
+
+  pub fn verif_addr(&self) -> usize {
+    self.waiter.to_usize()
+  }
+
+  pub fn verif_state(&self) -> String {
+    format!("{:?}", self.state)
+  }
+}
+
 impl Fiber {
   /// Create a new fiber from the provided closure. The fiber uses
   /// this initial closure to determine how much stack space to initially
